@@ -68,7 +68,7 @@ Theorem back_exec_row_observed fuel r rid cur nxt ev rn g :
   plain_state nxt -> c_pol cf < 4 ->
   g_plan g = [] -> memb rid (g_val g) = true ->
   let x := Row rid cur (TrEv (e_ty ev)) (TgState nxt) true ActCall None in
-  exec_row cf mc no_children fuel r x ev rn g =
+  exec_row cf contained mc no_children fuel r x ev rn g =
     (Some HANDLED_TRUE,
      set_act rn (upd (act rn) r nxt),
      Glob (expected_items (c_pol cf) r cur nxt rid ev (act rn) ++ g_tr g)
